@@ -3,8 +3,7 @@
 No instrumentation is added to /repo: the harness temporarily replaces the *attributes*
 builtins.open, os.path.isfile, os.path.exists (and, for C11, tempfile.TemporaryFile, os.remove,
 os.rename, os.replace) by recording wrappers that delegate to the originals, and restores them.
-All files live in a fresh directory under /work/files/tmp (or $VERIF_TMP / the system temp dir)
-that is removed afterwards.
+All files live in a fresh directory under tmp_base() that is removed afterwards.
 """
 import builtins
 import contextlib
@@ -15,14 +14,15 @@ import tempfile
 
 
 def tmp_base():
+    """$VERIF_TMP, else <parent of the verif clone>/tmp when it exists (a worker's /work/<name>/tmp),
+    else <verif>/work/tmp (git-ignored).  Never the system /tmp."""
     b = os.environ.get('VERIF_TMP')
-    if b:
-        os.makedirs(b, exist_ok=True)
-        return b
-    if os.path.isdir('/work/files'):
-        os.makedirs('/work/files/tmp', exist_ok=True)
-        return '/work/files/tmp'
-    return tempfile.gettempdir()
+    if not b:
+        verif = os.path.dirname(os.path.dirname(os.path.dirname(os.path.abspath(__file__))))
+        sib = os.path.join(os.path.dirname(verif), 'tmp')
+        b = sib if os.path.isdir(sib) and os.path.dirname(verif) != '/' else os.path.join(verif, 'work', 'tmp')
+    os.makedirs(b, exist_ok=True)
+    return b
 
 
 def mk_sandbox(tag):
